@@ -132,6 +132,22 @@ func armPaths(p *Program, fn *ssa.Function, start *ssa.BasicBlock, stop map[*ssa
 			if !stop[last] {
 				end = "leave"
 			}
+			// a loop left through a flag (`done = true` in the arm, `for !done` / `if done { break }`
+			// where the iteration starts again): the test at the stop block is decided by the
+			// values this path carries into it
+			if end == "continue" && len(last.Instrs) > 0 {
+				if ifi, isIf := last.Instrs[len(last.Instrs)-1].(*ssa.If); isIf {
+					if val, known := pa.boolOnPath(ifi.Cond, len(pa.Blocks)-1); known {
+						taken := last.Succs[1]
+						if val {
+							taken = last.Succs[0]
+						}
+						if taken != start && !taken.Dominates(start) {
+							end = "leave"
+						}
+					}
+				}
+			}
 			if len(stop) > 1 {
 				// two stop blocks: loop header (continue) and loop exit (leave)
 				if last != start && !last.Dominates(start) && last != pa.Blocks[0] {
@@ -579,20 +595,20 @@ func runC16(p *Program, r *Result) {
 					continue
 				}
 				facts := tb.FactsAt(b)
-				need := 0
+				need := map[int]bool{}
 				for _, a := range facts {
 					s := short(a.String())
 					if strings.HasPrefix(s, "strconv.Atoi(Elem(Field(") && strings.HasSuffix(s, ".Args), 0)).1 == nil") {
-						need++
+						need[1] = true
 					}
 					if strings.HasPrefix(s, "strconv.Atoi(Elem(Field(") && strings.HasSuffix(s, ".Args), 0)).0 == 0") {
-						need++
+						need[2] = true
 					}
 					if strings.HasPrefix(s, "len(Field(") && strings.HasSuffix(s, ".Args)) >= 2") {
-						need++
+						need[3] = true
 					}
 				}
-				ok = need == 3
+				ok = len(need) == 3
 			}
 		}
 		r.Check(ok, wwl.String(), "accept:recipient-stanza", "", "under len(Args) >= 2, Atoi ok, index == 0", "a recipient stanza is accepted without the guards len(Args) >= 2, Atoi(Args[0]) ok and index == 0")
@@ -613,25 +629,25 @@ func runC16(p *Program, r *Result) {
 					continue
 				}
 				facts := utb.FactsAt(b)
-				need := 0
+				need := map[int]bool{}
 				for _, a := range facts {
 					s := short(a.String())
 					if strings.HasPrefix(s, "strconv.Atoi(Elem(Field(") && strings.HasSuffix(s, ".Args), 0)).1 == nil") {
-						need++
+						need[1] = true
 					}
 					if strings.HasPrefix(s, "strconv.Atoi(Elem(Field(") && strings.HasSuffix(s, ".Args), 0)).0 == 0") {
-						need++
+						need[2] = true
 					}
 					if strings.HasPrefix(s, "len(Field(") && strings.HasSuffix(s, ".Args)) == 1") {
-						need++
+						need[3] = true
 					}
 					if a.Kind == "cmp" && a.Op == "==" && a.Y.Op == "Nil" {
 						if ld, isLd := a.X.V.(*ssa.UnOp); isLd && ld.X == st.Addr {
-							need++
+							need[4] = true
 						}
 					}
 				}
-				okf = need == 4
+				okf = len(need) == 4
 			}
 		}
 		r.Check(okf, unw.String(), "accept:file-key", "", "under len(Args) == 1, Atoi ok, index == 0, no key yet", "a file key is accepted without the guards len(Args) == 1, Atoi ok, index == 0 and fileKey == nil (duplicate)")
